@@ -31,8 +31,15 @@ fn parse_target(t: &[u8]) -> (Vec<u8>, Vec<(Vec<u8>, Vec<u8>)>) {
     (path.to_vec(), params)
 }
 
-pub fn run(a: &Args) {
-    let mut rng = Rng::new(a.seed);
+pub struct SessionMock {
+    pub rt: tokio::runtime::Runtime,
+    pub captured: Arc<Mutex<Vec<String>>>,
+    reply: Arc<Mutex<Reply>>,
+}
+
+impl SessionMock {
+    /// plain-HTTP mock session server on loopback; PASSAGE_VERIF_SESSION_BASE points the real adapter at it
+    pub fn start() -> SessionMock {
     let rt = tokio::runtime::Builder::new_multi_thread().worker_threads(2).enable_all().build().unwrap();
     let captured: Arc<Mutex<Vec<String>>> = Arc::new(Mutex::new(vec![]));
     let reply: Arc<Mutex<Reply>> = Arc::new(Mutex::new(Reply::Profile));
@@ -73,6 +80,28 @@ pub fn run(a: &Args) {
     });
     // SAFETY: set before any other thread reads the environment for this purpose
     unsafe { std::env::set_var("PASSAGE_VERIF_SESSION_BASE", format!("http://127.0.0.1:{port}")); }
+        SessionMock { rt, captured, reply }
+    }
+
+    /// one real `MojangAdapter::authenticate` call; the request lines the server saw
+    pub fn hash_seen(&self, server_id: &str, name: &str, secret: &[u8], public: &[u8]) -> Option<Vec<u8>> {
+        *self.reply.lock().unwrap() = Reply::Profile;
+        self.captured.lock().unwrap().clear();
+        let adapter = MojangAdapter::default().with_server_id(server_id.to_string());
+        let client: std::net::SocketAddr = "192.0.2.1:5".parse().unwrap();
+        let uid = uuid::Uuid::from_u128(7);
+        let _ = self.rt.block_on(adapter.authenticate(&client, ("h", 1), 767, (name, &uid), secret, public));
+        let lines = self.captured.lock().unwrap().clone();
+        let t = lines.first()?.split(' ').nth(1)?.as_bytes().to_vec();
+        let (_, params) = parse_target(&t);
+        params.into_iter().find(|(k, _)| k == b"serverId").map(|(_, v)| v)
+    }
+}
+
+pub fn run(a: &Args) {
+    let mut rng = Rng::new(a.seed);
+    let mock = SessionMock::start();
+    let (rt, captured, reply) = (&mock.rt, mock.captured.clone(), mock.reply.clone());
 
     let specials = ["&", "=", "#", "?", "%", "+", " ", "/", "\\", "\u{0}", "\n", "\r\n", "é", "日本", "😀", "%26", "%3D", "a&serverId=deadbeef", "x&username=Other", "..%2f..", "?x=1#frag", "Victim&serverId=-1a2b", "\"quoted\"", "<>", "{}", "|", "^", "`", ";", ":", "@", ",", "$", "!", "'", "(", ")", "*", "~", "_-.", "\t"];
     let mut cases = vec![];
@@ -96,7 +125,8 @@ pub fn run(a: &Args) {
         let res = rt.block_on(adapter.authenticate(&client, ("h", 1), 767, (&name, &uid), &secret, &public));
         let lines = captured.lock().unwrap().clone();
         let mut why = vec![];
-        let hash = passage_adapters::authentication::minecraft_hash(&server_id, &secret, &public);
+        // expected hash from the independent reference (own limb arithmetic over the sha1 crate), not from passage
+        let hash = crate::c11::ref_hash(&server_id, &secret, &public);
         let target: Vec<u8> = match lines.as_slice() {
             [l] => { let mut it = l.split(' '); let m = it.next(); let t = it.next().unwrap_or(""); if m != Some("GET") { why.push(format!("method {m:?}")); } t.as_bytes().to_vec() }
             other => { why.push(format!("{} requests reached the session server", other.len())); vec![] }
